@@ -111,18 +111,40 @@ def theorems_in(path: Path):
     return [prefix + m for m in re.findall(r"^theorem\s+([A-Za-z_][\w'.]*)", src, flags=re.M)]
 
 
+class LakeLock:
+    """Exclusive lock over translate + build + audit (Gen/*.lean and .lake/build are shared state)."""
+
+    def __enter__(self):
+        self.fh = open(LEAN / ".lake.lock", "w")
+        fcntl.flock(self.fh, fcntl.LOCK_EX)
+        return self
+
+    def __exit__(self, *a):
+        fcntl.flock(self.fh, fcntl.LOCK_UN)
+        self.fh.close()
+
+
 def run_lake(targets, log):
-    lock = open(LEAN / ".lake.lock", "w")
-    fcntl.flock(lock, fcntl.LOCK_EX)
-    try:
-        p = subprocess.run(["lake", "build", *targets], cwd=LEAN, capture_output=True, text=True)
-        log.append(p.stdout[-8000:] + p.stderr[-4000:])
-        return p.returncode == 0, p.stdout + p.stderr
-    finally:
-        fcntl.flock(lock, fcntl.LOCK_UN)
+    p = subprocess.run(["lake", "build", *targets], cwd=LEAN, capture_output=True, text=True)
+    log.append(p.stdout[-8000:] + p.stderr[-4000:])
+    return p.returncode == 0, p.stdout + p.stderr
 
 
 def lean_phase(mod, tier: str):
+    with LakeLock():
+        res = _lean_phase(mod, tier)
+        # private copy of the model driver: a concurrent run (other property / other VERIF_REPO) may rebuild it
+        if res["driver_ok"]:
+            import shutil
+            rundir = LEAN / ".lake" / "run"
+            rundir.mkdir(parents=True, exist_ok=True)
+            dst = rundir / f"{mod.DRIVER}.{os.getpid()}"
+            shutil.copy2(LEAN / ".lake" / "build" / "bin" / mod.DRIVER, dst)
+            os.environ["VERIF_DRIVER_EXE"] = str(dst)
+        return res
+
+
+def _lean_phase(mod, tier: str):
     """Return dict(ok, obligations, discharged, broken=[...], driver_ok, axioms)"""
     pid = mod.ID
     res = {"ok": True, "broken": [], "driver_ok": True, "axioms": {}, "log": []}
@@ -216,7 +238,7 @@ def lean_phase(mod, tier: str):
 
 
 def run_driver(driver: str, lines):
-    exe = LEAN / ".lake" / "build" / "bin" / driver
+    exe = Path(os.environ.get("VERIF_DRIVER_EXE") or (LEAN / ".lake" / "build" / "bin" / driver))
     p = subprocess.run([str(exe)], input="\n".join(lines) + "\n", capture_output=True, text=True)
     if p.returncode != 0:
         raise RuntimeError(f"driver {driver} failed: {p.stderr[-500:]}")
@@ -255,7 +277,10 @@ def worker(args):
             stats["distinct_nontrivial"].add(hashlib.blake2b((s + l).encode(), digest_size=8).digest())
         bad_oracle = False
         if oracle is not None:
-            v = oracle(s, l, io_)
+            try:
+                v = oracle(s, l, io_)
+            except Exception:  # noqa: BLE001  (an oracle must not depend on the code under test; be conservative)
+                v = None
             bad_oracle = v is False
         if mo == "bad-op":
             diffs.append({"stream": s, "line": l, "impl": io_, "model": mo, "kind": "harness"})
@@ -441,6 +466,11 @@ def main():
     }
     (VERIF / "evidence").mkdir(exist_ok=True)
     (VERIF / "evidence" / f"{pid}.json").write_text(json.dumps(ev, indent=1, default=str))
+    try:
+        if os.environ.get("VERIF_DRIVER_EXE"):
+            os.unlink(os.environ["VERIF_DRIVER_EXE"])
+    except OSError:
+        pass
     print(f"{pid} {args.tier}: theorems={len(lean['theorems'])} proof_ok={lean['ok']} cases={total} "
           f"distinct_nontrivial={len(distinct)} diffs={len(diffs)} known={len(known_hit)} wall={wall:.1f}s")
     return exit_code
